@@ -36,6 +36,7 @@ fn check(h: &[Op]) -> Option<Witness> {
             Op::SelectFrom(k) => {
                 let mut q = Query::select(); for c in cols(k) { q.column(c); } q.from(Alias::new("u"));
                 let r = s.select_from(q).map(|_| ());
+                if let Err(e) = &r { if *e != (error::Error::ColValNumMismatch { col_len: ncols, val_len: k }) { return w(format!("call {i}: select_from({k}) with {ncols} columns: error {e:?}"), "ColValNumMismatch with both counts"); } }
                 if (k == ncols) != r.is_ok() { return w(format!("call {i}: select_from({k}) with {ncols} columns returned {r:?}"), "Ok iff the counts match"); }
                 if r.is_err() && s != before { return w(format!("call {i}: rejected SELECT changed the statement"), "statement unchanged after an error"); }
                 if r.is_ok() { select = Some(k); rows.clear(); }
